@@ -6,7 +6,7 @@ if os.path.exists('/verif/seeded/sweep.tsv'):
     for line in open('/verif/seeded/sweep.tsv'):
         p = line.rstrip('\n').split('\t')
         if len(p) >= 3:
-            res.setdefault(p[0], []).append((p[1], p[2]))
+            res.setdefault(p[0], {})[p[1]] = p[2]  # a later row for the same change and check replaces an earlier one
 def verdict(r):
     if 'VIOLATION' in r:
         m = re.search(r'\((assert|panic|deadlock|nontermination|fatal) (\S+)', r)
@@ -23,8 +23,8 @@ tot = det = 0
 for d in sorted(glob.glob('/verif/seeded/*/meta.json')):
     m = json.load(open(d))
     sid = m['id']
-    rs = res.get(sid, [])
-    vs = [f'{c}: {verdict(r)}' for c, r in rs]
+    rs = res.get(sid, {})
+    vs = [f'{c}: {verdict(r)}' for c, r in rs.items()]
     caught = any('caught' in v for v in vs)
     tot += 1; det += caught
     if 'history' not in m and m.get('check_result') and not re.match(r'C\d\d: ', m['check_result']):
